@@ -15,8 +15,9 @@ Proof. exact (conj (proj1 (forallb_forall _ _) table_exhaustive) (proj1 (forallb
 Print Assumptions C18_bif_table_exhaustive.
 
 (* no tuple panics, hangs, kills the runtime or exits through an internal coding error -- outside the (function, outcome)
-   pairs committed in C18/Exceptions.v as pending findings.  PARTIAL: the full statement (empty exception list) is false
-   of the pinned tree; the tuples inside the footprint are reported by the check as violations with CLI replays. *)
+   pairs committed in C18/Exceptions.v: the two KNOWN FINDINGS (absent/function values into collections; statistics over
+   non-numeric elements: internal-coding-error exits) and the tuples deliberately not evaluated (pad length 2^63-1).
+   PARTIAL for exactly that footprint; the tuples inside it are reported by the check with CLI replays. *)
 Theorem C18_bif_no_panic_or_hang_partial :
   forall s, In s gen_bif_shards -> forall r, In r (sh_bad s) -> known known_bad (sh_name s) (run_code r) = true.
 Proof.
@@ -33,13 +34,12 @@ Print Assumptions C18_bif_unlisted_functions_clean.
 
 (* ---- part 2: line readers ---- *)
 
-(* DKVP and NIDX have no malformed class: every byte string is read as records, one per line *)
-Theorem C18_dkvp_never_rejects_partial :
-  forall s, (forall a b l, read_dkvp s <> ErrMismatch a b l)
-         /\ (forall rs, read_dkvp s = Ok rs -> List.length rs = List.length (split_lines s)).
-Proof. exact (fun s => conj (read_dkvp_never_mismatch s) (read_dkvp_one_record_per_line s)). Qed.
-Print Assumptions C18_dkvp_never_rejects_partial.
-(* partial: the remaining constructor OutOfFuel (fuel of the a_2, a_3, ... key search) is not proved unreachable *)
+(* DKVP and NIDX have no malformed class: every byte string is read as records, one per line
+   (in particular the a_2, a_3, ... key search always finds a free key: pigeonhole, Proofs.fresh_key_some) *)
+Theorem C18_dkvp_total :
+  forall s, exists rs, read_dkvp s = Ok rs /\ List.length rs = List.length (split_lines s).
+Proof. exact read_dkvp_total. Qed.
+Print Assumptions C18_dkvp_total.
 
 Theorem C18_nidx_total :
   forall s, exists rs, read_nidx s = Ok rs /\ List.length rs = List.length (split_lines s).
@@ -52,10 +52,15 @@ Theorem C18_tsv_err_only_on_malformed :
 Proof. exact read_tsv_err_malformed. Qed.
 Print Assumptions C18_tsv_err_only_on_malformed.
 
-Theorem C18_tsv_malformed_is_rejected_partial :
-  forall s, tsv_malformed s -> (exists a b l, read_tsv s = ErrMismatch a b l) \/ read_tsv s = OutOfFuel.
-Proof. exact read_tsv_malformed_err. Qed.
-Print Assumptions C18_tsv_malformed_is_rejected_partial.
+Theorem C18_tsv_malformed_is_rejected :
+  forall s, tsv_malformed s -> exists a b l, read_tsv s = ErrMismatch a b l.
+Proof. exact read_tsv_malformed_err_strong. Qed.
+Print Assumptions C18_tsv_malformed_is_rejected.
+
+(* the model's fuel artefact is unreachable: every input is classified Ok or ErrMismatch *)
+Theorem C18_tsv_total : forall s, read_tsv s <> OutOfFuel.
+Proof. exact read_tsv_fuel_ok. Qed.
+Print Assumptions C18_tsv_total.
 
 Theorem C18_tsv_ok_means_wellformed :
   forall s rs, read_tsv s = Ok rs -> ~ tsv_malformed s /\ List.length rs = pred (List.length (split_lines s)).
